@@ -191,7 +191,9 @@ class Ctx:
 
     def fail(self, what, case, key):
         """Record an oracle failure = the property fails on the real code for `case`."""
-        if len(self.failures) < 50:
+        # capped per kind of failure, so that many instances of one (possibly known) failure never crowd out another kind
+        n_same = sum(1 for f in self.failures if f['key'] == key)
+        if n_same < 50 and len(self.failures) < 400:
             self.failures.append({'what': what, 'case': case, 'key': key})
 
 
